@@ -231,15 +231,21 @@ Section Write.
   Hypothesis Hlo : (0 <= off0)%Z.
   Hypothesis Hhi : (off0 + Z.of_nat (length p) < 9223372036854775808)%Z.
 
+  (** the file holds p[:x] at off0; x is the count so far unless a failing Twrite stored bytes as well *)
   Definition write_inv (total : nat) (st : wstate) : Prop :=
-    total <= length p /\ rf_eq (ws_file st) (rf_store f0 off0 (firstn total p)).
+    exists x, total <= x <= length p /\
+              rf_eq (ws_file st) (rf_store f0 off0 (firstn x p)) /\
+              (ws_failed st = false -> x = total).
 
   Lemma write_step total st len n e st' :
     write_inv total st -> total < length p -> len = Nat.min cs (length p - total) ->
     write_fn p st total len (off0 + Z.of_nat total)%Z = ((n, e), st') ->
     n <= len /\ write_inv (total + n) st'.
   Proof.
-    intros [Ht Hf] Hlt Hlen Hfn. unfold write_fn in Hfn.
+    intros (x & Hx & Hf & Hxf) Hlt Hlen Hfn. unfold write_fn in Hfn.
+    destruct (ws_failed st) eqn:Hfl.
+    { inversion Hfn; subst n e st'; clear Hfn. split; [lia|]. rewrite Nat.add_0_r. exists x. rewrite Hfl. auto. }
+    specialize (Hxf eq_refl). subst x.
     assert (Hdl : length (firstn len (skipn total p)) = len).
     { rewrite firstn_length, skipn_length. lia. }
     assert (Hstore : forall d, d = firstn (length d) (skipn total p) ->
@@ -249,31 +255,37 @@ Section Write.
       - replace (Z.of_nat total) with (Z.of_nat (length (firstn total p))) by (rewrite firstn_length; lia).
         eapply rf_eq_trans; [apply rf_store_app; lia|].
         rewrite Hd at 1. rewrite firstn_skipn_add. apply rf_eq_refl. }
-    destruct (ws_tape st) as [|[k|err] tape].
-    - inversion Hfn; subst n e st'; clear Hfn. rewrite Hdl. split; [lia|]. split; [lia|]. cbn [ws_file].
+    assert (Hk : forall k, length (firstn k (firstn len (skipn total p))) = Nat.min k len).
+    { intros k. rewrite firstn_length, Hdl. reflexivity. }
+    destruct (ws_tape st) as [|[k|err|k err] tape].
+    - inversion Hfn; subst n e st'; clear Hfn. rewrite Hdl. split; [lia|].
+      exists (total + len). cbn [ws_file ws_failed]. split; [lia|]. split; auto.
       rewrite <- Hdl at 2. apply Hstore. now rewrite Hdl.
-    - inversion Hfn; subst n e st'; clear Hfn.
-      assert (Hk : length (firstn k (firstn len (skipn total p))) = Nat.min k len).
-      { rewrite firstn_length, Hdl. reflexivity. }
-      split; [lia|]. split; [lia|]. cbn [ws_file]. apply Hstore.
-      rewrite Hk. rewrite firstn_firstn. reflexivity.
-    - inversion Hfn; subst n e st'; clear Hfn. split; [lia|]. rewrite Nat.add_0_r. split; auto.
+    - inversion Hfn; subst n e st'; clear Hfn. rewrite Hk. split; [lia|].
+      exists (total + Nat.min k len). cbn [ws_file ws_failed]. split; [lia|]. split; auto.
+      rewrite <- Hk. apply Hstore. rewrite Hk. rewrite firstn_firstn. reflexivity.
+    - inversion Hfn; subst n e st'; clear Hfn. split; [lia|]. rewrite Nat.add_0_r.
+      exists total. cbn [ws_file ws_failed]. split; [lia|]. split; auto.
+    - inversion Hfn; subst n e st'; clear Hfn. split; [lia|]. rewrite Nat.add_0_r.
+      exists (total + Nat.min k len). cbn [ws_file ws_failed]. split; [lia|]. split.
+      + rewrite <- Hk. apply Hstore. rewrite Hk. rewrite firstn_firstn. reflexivity.
+      + rewrite Hk. intros Hz. apply negb_false_iff in Hz. apply Nat.eqb_eq in Hz. lia.
   Qed.
 
   (** an error comes with count 0 (Rlerror carries no count) *)
   Lemma write_fn_err st pos len off n e st' :
-    write_fn p st pos len off = ((n, Some e), st') -> n = 0 /\ In (WErr e) (ws_tape st).
+    write_fn p st pos len off = ((n, Some e), st') -> n = 0.
   Proof.
-    unfold write_fn. destruct (ws_tape st) as [|[k|err] tape]; intros H; inversion H; subst.
-    split; auto. now left.
+    unfold write_fn. destruct (ws_failed st); [intros H; now inversion H|].
+    destruct (ws_tape st) as [|[k|err|k err] tape]; intros H; inversion H; subst; auto.
   Qed.
 
   Theorem write_at_spec tape : 0 < length p ->
     exists n e calls st',
       write_at cs p off0 f0 tape = ((CRet n e, calls), st') /\
       chunks_ok cs (length p) off0 0 calls n e /\
-      n <= length p /\
-      rf_eq (ws_file st') (rf_store f0 off0 (firstn n p)) /\
+      (exists x, n <= x <= length p /\ rf_eq (ws_file st') (rf_store f0 off0 (firstn x p)) /\
+                 (ws_failed st' = false -> x = n)) /\
       (forall err, e = Some err -> c_n (last calls (mkcall 0 0 0 0 None)) = 0).
   Proof.
     intros Hpos. unfold write_at.
@@ -282,12 +294,12 @@ Section Write.
               write_fn p st total len (off0 + Z.of_nat total)%Z = ((n, e), st') ->
               n <= len /\ write_inv (total + n) st').
     { intros. eapply write_step; eauto. }
-    assert (Hinit : write_inv 0 (mkws f0 tape)).
-    { split; [lia|]. cbn. apply rf_eq_refl. }
-    destruct (chunk_spec wstate (write_fn p) write_inv cs (length p) off0 Hcs ltac:(lia) Hhi Hstep (mkws f0 tape) Hpos Hinit)
-      as (n & e & calls & st' & Hrun & Hok & [Hn Hf] & Hall).
+    assert (Hinit : write_inv 0 (mkws f0 tape false)).
+    { exists 0. split; [lia|]. cbn. split; [apply rf_eq_refl|auto]. }
+    destruct (chunk_spec wstate (write_fn p) write_inv cs (length p) off0 Hcs ltac:(lia) Hhi Hstep (mkws f0 tape false) Hpos Hinit)
+      as (n & e & calls & st' & Hrun & Hok & Hinv & Hall).
     exists n, e, calls, st'.
-    split; [exact Hrun|]. split; [exact Hok|]. split; [exact Hn|]. split; [exact Hf|].
+    split; [exact Hrun|]. split; [exact Hok|]. split; [exact Hinv|].
     intros err He. pose proof (chunks_ok_last _ _ _ _ _ _ _ Hok) as Hl.
     destruct calls as [|c0 cl]; [destruct Hl; congruence|].
     destruct Hl as [Hl _]. set (c := last (c0 :: cl) _) in *.
@@ -298,30 +310,74 @@ Section Write.
     rewrite <- Hl, He in Hfn. now apply write_fn_err in Hfn.
   Qed.
 
+  (** no failing Twrite stores anything (the assumption under which WriteAt "stores exactly p[:n]") *)
+  Definition stores_nothing_on_error (tape : list wans) : Prop :=
+    Forall (fun a => match a with WErrStored _ _ => False | _ => True end) tape.
+
+  Definition write_clean_inv (total : nat) (st : wstate) : Prop :=
+    write_inv total st /\ ws_failed st = false /\ stores_nothing_on_error (ws_tape st).
+
+  Lemma write_clean_step total st len n e st' :
+    write_clean_inv total st -> total < length p -> len = Nat.min cs (length p - total) ->
+    write_fn p st total len (off0 + Z.of_nat total)%Z = ((n, e), st') ->
+    n <= len /\ write_clean_inv (total + n) st'.
+  Proof.
+    intros (Hi & Hfl & Hns) Hlt Hlen Hfn.
+    destruct (write_step _ _ _ _ _ _ Hi Hlt Hlen Hfn) as [Hn Hi']. split; auto. split; auto.
+    unfold write_fn in Hfn. rewrite Hfl in Hfn. unfold stores_nothing_on_error in *.
+    destruct (ws_tape st) as [|[k|err|k err] tape]; inversion Hfn; subst; cbn [ws_failed ws_tape].
+    - split; auto.
+    - inversion Hns; subst. split; auto.
+    - inversion Hns; subst. split; auto.
+    - inversion Hns; subst. contradiction.
+  Qed.
+
+  Theorem write_at_clean tape : 0 < length p -> stores_nothing_on_error tape ->
+    exists n e calls st',
+      write_at cs p off0 f0 tape = ((CRet n e, calls), st') /\
+      chunks_ok cs (length p) off0 0 calls n e /\
+      n <= length p /\
+      rf_eq (ws_file st') (rf_store f0 off0 (firstn n p)).
+  Proof.
+    intros Hpos Hns. unfold write_at.
+    assert (Hstep : forall total st len n e st', write_clean_inv total st -> total < length p ->
+              len = Nat.min cs (length p - total) ->
+              write_fn p st total len (off0 + Z.of_nat total)%Z = ((n, e), st') ->
+              n <= len /\ write_clean_inv (total + n) st').
+    { intros. eapply write_clean_step; eauto. }
+    assert (Hinit : write_clean_inv 0 (mkws f0 tape false)).
+    { split; [|split; auto]. exists 0. split; [lia|]. cbn. split; [apply rf_eq_refl|auto]. }
+    destruct (chunk_spec wstate (write_fn p) write_clean_inv cs (length p) off0 Hcs ltac:(lia) Hhi Hstep (mkws f0 tape false) Hpos Hinit)
+      as (n & e & calls & st' & Hrun & Hok & ((x & Hx & Hf & Hxf) & Hfl & _) & Hall).
+    specialize (Hxf Hfl). subst x.
+    exists n, e, calls, st'. split; [exact Hrun|]. split; [exact Hok|]. split; [lia|exact Hf].
+  Qed.
+
   (** the backend accepts everything: whole buffer stored, (len p, nil) *)
   Definition accepts_all (tape : list wans) : Prop :=
-    Forall (fun a => match a with WCount k => cs <= k | WErr _ => False end) tape.
+    Forall (fun a => match a with WCount k => cs <= k | _ => False end) tape.
 
   Definition write_all_inv (total : nat) (st : wstate) : Prop :=
-    write_inv total st /\ accepts_all (ws_tape st).
+    write_inv total st /\ ws_failed st = false /\ accepts_all (ws_tape st).
 
   Lemma write_all_step total st len n e st' :
     write_all_inv total st -> total < length p -> len = Nat.min cs (length p - total) ->
     write_fn p st total len (off0 + Z.of_nat total)%Z = ((n, e), st') ->
     n <= len /\ write_all_inv (total + n) st' /\ n = len /\ e = None.
   Proof.
-    intros [Hi Hacc] Hlt Hlen Hfn.
+    intros (Hi & Hfl & Hacc) Hlt Hlen Hfn.
     destruct (write_step _ _ _ _ _ _ Hi Hlt Hlen Hfn) as [Hn Hi'].
-    unfold write_fn in Hfn.
+    unfold write_fn in Hfn. rewrite Hfl in Hfn.
     assert (Hdl : length (firstn len (skipn total p)) = len).
     { rewrite firstn_length, skipn_length. lia. }
     unfold accepts_all in *.
-    destruct (ws_tape st) as [|[k|err] tape].
+    destruct (ws_tape st) as [|[k|err|k err] tape].
     - inversion Hfn; subst n e st'; clear Hfn.
-      split; [exact Hn|]. split; [split; [exact Hi'|constructor]|]. split; [exact Hdl|reflexivity].
+      split; [exact Hn|]. split; [split; [exact Hi'|split; [reflexivity|constructor]]|]. split; [exact Hdl|reflexivity].
     - inversion Hacc as [|? ? Hk Hacc']; subst. inversion Hfn; subst n e st'; clear Hfn.
-      split; [exact Hn|]. split; [split; [exact Hi'|exact Hacc']|].
+      split; [exact Hn|]. split; [split; [exact Hi'|split; [reflexivity|exact Hacc']]|].
       split; [|reflexivity]. rewrite firstn_length, Hdl. lia.
+    - inversion Hacc as [|? ? Hk Hacc']; subst. contradiction.
     - inversion Hacc as [|? ? Hk Hacc']; subst. contradiction.
   Qed.
 End Write.
@@ -352,23 +408,23 @@ Proof.
             n <= len /\ write_all_inv p cs off0 f0 (total + n) st').
   { intros total st len n e st' HI Hlt Hlen Hfn.
     edestruct (write_all_step p cs off0 f0) as (A & B & _); eauto. }
-  assert (Hinit : write_all_inv p cs off0 f0 0 (mkws f0 tape)).
-  { split; [|exact Hacc]. split; [lia|]. cbn. apply rf_eq_refl. }
-  destruct (chunk_spec wstate (write_fn p) (write_all_inv p cs off0 f0) cs (length p) off0 Hcs ltac:(lia) Hhi Hstep (mkws f0 tape) Hpos Hinit)
-    as (n & e & calls & st' & Hrun & Hok & [[Hn Hf] _] & Hall).
+  assert (Hinit : write_all_inv p cs off0 f0 0 (mkws f0 tape false)).
+  { split; [|split; [reflexivity|exact Hacc]]. exists 0. split; [lia|]. cbn. split; [apply rf_eq_refl|auto]. }
+  destruct (chunk_spec wstate (write_fn p) (write_all_inv p cs off0 f0) cs (length p) off0 Hcs ltac:(lia) Hhi Hstep (mkws f0 tape false) Hpos Hinit)
+    as (n & e & calls & st' & Hrun & Hok & ((x & Hx & Hf & Hxf) & Hfl & _) & Hall).
+  specialize (Hxf Hfl). subst x.
   assert (Hfull : Forall (fun c => c_n c = c_len c /\ c_err c = None) calls).
-    { pose proof (chunks_ok_each _ _ _ _ _ _ _ Hok) as Heach.
-      rewrite Forall_forall in *. intros c Hc. destruct (Hall c Hc) as (s1 & s2 & HI & Hfn).
-      destruct (Heach c Hc Hcs) as (Hl1 & Hl2 & Hoff & _).
-      rewrite Hoff in Hfn.
-      pose proof (chunks_ok_contiguous _ _ _ _ _ _ _ Hok) as _.
-      assert (Hlen : c_len c = Nat.min cs (length p - c_pos c)).
-      { clear - Hok Hc. induction Hok; cbn in Hc; try tauto.
-        - destruct Hc as [<-|[]]. congruence.
-        - destruct Hc as [<-|Hc]; auto. lia. }
-      edestruct (write_all_step p cs off0 f0) as (_ & _ & ? & ?); eauto; lia. }
-    destruct (chunks_ok_all_full _ _ _ _ _ _ _ Hok Hfull) as [-> ->].
-    exists calls, st'. split; auto. now rewrite firstn_all in Hf.
+  { pose proof (chunks_ok_each _ _ _ _ _ _ _ Hok) as Heach.
+    rewrite Forall_forall in *. intros c Hc. destruct (Hall c Hc) as (s1 & s2 & HI & Hfn).
+    destruct (Heach c Hc Hcs) as (Hl1 & Hl2 & Hoff & _).
+    rewrite Hoff in Hfn.
+    assert (Hlen : c_len c = Nat.min cs (length p - c_pos c)).
+    { clear - Hok Hc. induction Hok; cbn in Hc; try tauto.
+      - destruct Hc as [<-|[]]. congruence.
+      - destruct Hc as [<-|Hc]; auto. lia. }
+    edestruct (write_all_step p cs off0 f0) as (_ & _ & ? & ?); eauto; lia. }
+  destruct (chunks_ok_all_full _ _ _ _ _ _ _ Hok Hfull) as [-> ->].
+  exists calls, st'. split; auto. now rewrite firstn_all in Hf.
 Qed.
 
 (** ---- readAt ---- *)
